@@ -796,8 +796,8 @@ class StmtMixin(object):
                     raise Undecided("loop re-assigns local %r holding a tuple: declare its type with locals={...}" % name)
                 continue
             z = u.fresh_val("loop_" + name)
-            if cur.kind == "none":
-                # None before the loop says nothing about later iterations
+            if cur.kind in ("none", "sentinel"):
+                # None (or a marker object) before the loop says nothing about later iterations
                 nv = SV(z)
             else:
                 nv = SV(z, cur.kind, cls=cur.cls, elem=cur.elem)
@@ -925,7 +925,7 @@ class StmtMixin(object):
                 if declared is not None:
                     h.env[name] = self.typed(u.fresh_val("dry_" + name), declared)
                 elif cur.z is not None:
-                    h.env[name] = SV(u.fresh_val("dry_" + name)) if cur.kind == "none" else \
+                    h.env[name] = SV(u.fresh_val("dry_" + name)) if cur.kind in ("none", "sentinel") else \
                         SV(u.fresh_val("dry_" + name), cur.kind, cls=cur.cls, elem=cur.elem)
         for key in list(h.heap):
             h.heap[key] = u.fresh("D" + key.replace("$", "_"), h.heap[key].sort())
